@@ -262,6 +262,10 @@ func NewLengthedBytesSlice(m [][]byte) ([]byte, error) {
 }
 
 func WriteLengthedSlice(w io.Writer, m [][]byte) error {
+	if len(m) > maxLengthBytes {
+		return errors.Errorf("too many bytes slice, %d; not readable over %d", len(m), maxLengthBytes)
+	}
+
 	if _, err := w.Write(Uint64ToBytes(uint64(len(m)))); err != nil {
 		return errors.WithStack(err)
 	}
@@ -367,6 +371,10 @@ func NewBufferBytesFrameWriter() (*BytesFrameWriter, *bytes.Buffer) {
 func (f *BytesFrameWriter) Header(bs ...[]byte) error {
 	if f.headerWritten {
 		return errors.Errorf("header already written")
+	}
+
+	if len(bs) > maxLengthBytes {
+		return errors.Errorf("too many headers, %d; not readable over %d", len(bs), maxLengthBytes)
 	}
 
 	defer func() {
